@@ -1,9 +1,33 @@
 import UvModel.DriverUtil
+import Drivers.C01
+import Drivers.C02
+import Drivers.C03
 import Drivers.C04
-open UvModel.DriverUtil
+import Drivers.C05
+import Drivers.C06
+import Drivers.C07
+import Drivers.C08
+import Drivers.C09
+import Drivers.C10
+import Drivers.C11
+import Drivers.C12
+import Drivers.C13
+import Drivers.C14
+import Drivers.C15
+import Drivers.C16
+import Drivers.C17
+import Drivers.C18
+import Drivers.C19
+import Drivers.C20
+
+/-! `uvdriver <mode>`: every property's driver module contributes its modes. -/
+def allModes : List (String × IO Unit) :=
+  Drivers.C01.modes ++ Drivers.C02.modes ++ Drivers.C03.modes ++ Drivers.C04.modes ++ Drivers.C05.modes ++ Drivers.C06.modes ++ Drivers.C07.modes ++ Drivers.C08.modes ++ Drivers.C09.modes ++ Drivers.C10.modes ++ Drivers.C11.modes ++ Drivers.C12.modes ++ Drivers.C13.modes ++ Drivers.C14.modes ++ Drivers.C15.modes ++ Drivers.C16.modes ++ Drivers.C17.modes ++ Drivers.C18.modes ++ Drivers.C19.modes ++ Drivers.C20.modes
 
 def main (args : List String) : IO UInt32 := do
   match args with
-  | ["heap"] => runLines (#[] : UvModel.Heap.H) Drivers.C04.heapStep; return 0
-  | ["timer"] => runLines ({} : Drivers.C04.TS) Drivers.C04.timerStep; return 0
-  | _ => IO.eprintln s!"uvdriver: unknown mode {args}"; return 2
+  | [m] =>
+    match allModes.find? (·.1 = m) with
+    | some (_, act) => act; return 0
+    | none => IO.eprintln s!"uvdriver: unknown mode {m}"; return 2
+  | _ => IO.eprintln "usage: uvdriver <mode>"; return 2
